@@ -11,6 +11,7 @@
   intersector (`none` = the call raises) and read `getNumIntersects()`.
 -/
 import FtProofs.Lemmas.Intersect
+import FtProofs.Lemmas.Compute
 set_option linter.unusedSectionVars false
 set_option linter.unusedSimpArgs false
 set_option linter.unusedVariables false
@@ -161,5 +162,91 @@ example : GroupsOk 2 exGroups ∧ GroupsOk 2 (exGroups.flatten.map (fun f => [f]
   rcases hg with rfl | rfl
   · exact ⟨by simp [ShapeOk], by simp [distinctPre], by simp [groupClean, clean, cleanEnd]⟩
   · exact ⟨by simp [ShapeOk], by simp [distinctPre], by simp [groupClean]⟩
+
+/-! ## The swap-count model (`Compute.numSwaps`)
+
+`numSwapsTree dflt e radix lat depth t` is `_numSwapsTree(root, depth, radix, next_latency)` on
+a tree with `e + 2 + depth` ranks; `mergeNodes dflt e depth t` lists, for every fiber of level
+`depth` that the walk reaches, the coordinate lists that are merged there; `RadixOk radix`:
+the radix is `float("inf")` or at least 2 (radix 1 does not terminate in Python). -/
+
+/-- **Finite latency**: at every reached fiber of the target level, each merge round over
+    `k > 1` lists holding `n` coordinates in total is charged `lat · (k + n)` — the latency per
+    list and per element — and leaves ⌈k / min(radix, k)⌉ lists (`roundsCost`). -/
+theorem swaps_finite (dflt : Int) (e : Nat) (radix : Option Nat) (hr : RadixOk radix) (lat depth : Nat)
+    (t : Tree Int Int (e + 2 + depth)) :
+    numSwapsTree dflt e radix (Lat.fin lat) depth t =
+      ((mergeNodes dflt e depth t).map (fun lists => roundsCost radix lat (total lists) lists.length)).sum := by
+  rw [numSwapsTree_eq_nodes]
+  congr 1
+  apply List.map_congr_left
+  intro lists _
+  exact swapsAt_fin radix hr lat lists
+
+/-- the rounds: `roundsCost` unfolded once -/
+theorem roundsCost_round (radix : Option Nat) (lat n k : Nat) :
+    roundsCost radix lat n k =
+      if 2 ≤ k ∧ 2 ≤ clampRadix radix k then
+        lat * (k + n) + roundsCost radix lat n (ceilDiv k (clampRadix radix k))
+      else 0 :=
+  roundsCost_eq radix lat n k
+
+/-- **Payload independence (partial)**: the count is a function of the coordinate skeleton
+    alone — PROVIDED every element the walk iterates over is empty exactly when its skeleton
+    shows it (`presentAgrees`; it fails for a sub-fiber that stores only explicit defaults,
+    and then so does the claim: `swaps_payload_counterexample`). -/
+theorem swaps_skeleton_partial (dflt : Int) (e : Nat) (radix : Option Nat) (lat : Lat) (depth : Nat)
+    (t : Tree Int Int (e + 2 + depth)) (h : presentAgrees dflt e depth t = true) :
+    numSwapsTree dflt e radix lat depth t = swapsSpec e radix lat depth (skel (e + 2 + depth) t) :=
+  numSwapsTree_skel dflt e radix lat depth t h
+
+theorem swaps_payload_independent_partial (dflt dflt' : Int) (e : Nat) (radix : Option Nat) (lat : Lat)
+    (depth : Nat) (t t' : Tree Int Int (e + 2 + depth))
+    (hs : skel (e + 2 + depth) t = skel (e + 2 + depth) t')
+    (h : presentAgrees dflt e depth t = true) (h' : presentAgrees dflt' e depth t' = true) :
+    numSwapsTree dflt e radix lat depth t = numSwapsTree dflt' e radix lat depth t' := by
+  rw [numSwapsTree_skel dflt e radix lat depth t h, numSwapsTree_skel dflt' e radix lat depth t' h', hs]
+
+/-- in particular for trees without explicit defaults: same coordinates, any values -/
+theorem swaps_payload_independent_noDefault (dflt : Int) (e : Nat) (radix : Option Nat) (lat : Lat)
+    (depth : Nat) (t t' : Tree Int Int (e + 2 + depth))
+    (hs : skel (e + 2 + depth) t = skel (e + 2 + depth) t')
+    (h : noDefaultLeaf dflt (e + 2 + depth) t = true) (h' : noDefaultLeaf dflt (e + 2 + depth) t' = true) :
+    numSwapsTree dflt e radix lat depth t = numSwapsTree dflt e radix lat depth t' :=
+  swaps_payload_independent_partial dflt dflt e radix lat depth t t' hs
+    (presentAgrees_of_noDefault dflt e depth t h) (presentAgrees_of_noDefault dflt e depth t' h')
+
+/-- ranks M, K: M0 ↦ {1: v}, M1 ↦ {2: 5, 3: 5} -/
+def witTree (v : Int) : Tree Int Int 2 :=
+  show List (Int × List (Int × Int)) from [(0, [(1, v)]), (1, [(2, 5), (3, 5)])]
+
+/-- **The unrestricted claim fails for the code as it is (DESIGN §7 #13)**: the same coordinates
+    with payload 0 instead of 7 at one leaf change the count from 5 to 0. -/
+theorem swaps_payload_counterexample :
+    skel 2 (witTree 0) = skel 2 (witTree 7) ∧
+    numSwapsTree 0 0 (some 2) (Lat.fin 1) 0 (witTree 7) = 5 ∧
+    numSwapsTree 0 0 (some 2) (Lat.fin 1) 0 (witTree 0) = 0 := by
+  have h1 : roundsCost (some 2) 1 3 1 = 0 := roundsCost_small _ _ _ _ (by omega)
+  have h2 : roundsCost (some 2) 1 3 2 = 5 := by
+    rw [roundsCost_eq]; simp [clampRadix, ceilDiv, h1]
+  have m7 : mergeNodes 0 0 0 (witTree 7) = [[[1], [2, 3]]] := by decide
+  have m0 : mergeNodes 0 0 0 (witTree 0) = [[[2, 3]]] := by decide
+  refine ⟨rfl, ?_, ?_⟩
+  · rw [swaps_finite 0 0 (some 2) (by simp [RadixOk]) 1 0 (witTree 7), m7]
+    simp [total, h2]
+  · rw [swaps_finite 0 0 (some 2) (by simp [RadixOk]) 1 0 (witTree 0), m0]
+    simp [total, roundsCost_small]
+
+/-- non-vacuity: three lists, radix 2: two rounds, 3·(3+8) + 3·(2+8) (test_num_swaps_finite_radix) -/
+example : RadixOk (some 2) ∧ roundsCost (some 2) 3 8 3 = 63 := by
+  refine ⟨by simp [RadixOk], ?_⟩
+  have h1 : roundsCost (some 2) 3 8 1 = 0 := roundsCost_small _ _ _ _ (by omega)
+  have h2 : roundsCost (some 2) 3 8 2 = 30 := by
+    rw [roundsCost_eq]; simp [clampRadix, ceilDiv, h1]
+  rw [roundsCost_eq]; simp [clampRadix, ceilDiv, h2]
+
+example : presentAgrees 0 0 0 (witTree 7) = true ∧ noDefaultLeaf 0 2 (witTree 7) = true ∧
+    presentAgrees 0 0 0 (witTree 0) = false := by
+  refine ⟨?_, ?_, ?_⟩ <;> decide
 
 end Ft
